@@ -83,6 +83,9 @@ func runC19(c *Ctx) {
 			for _, r := range *write.Referrers() {
 				if cl, ok := r.(ssa.CallInstruction); ok && cl.Common().Value == write {
 					commits = append(commits, cl)
+					if _, immediate := r.(*ssa.Call); !immediate {
+						c.Check(false, fk(f, "commit-is-immediate"), r, "the commit is a direct call in the iteration, not deferred: a deferred commit lets later operations of the same block run on the pre-block state")
+					}
 				} else if _, isDbg := r.(*ssa.DebugRef); !isDbg {
 					c.Check(false, fk(f, "commit-fn-escapes"), r, "the commit function is only called directly")
 				}
